@@ -667,6 +667,17 @@ impl<K: KeyLike> Sut<K> {
 
     /// `Clone::clone_from`: make `self` (any configuration of the same kind) a copy of `src`
     pub fn clone_from_other(&mut self, src: &Sut<K>) -> bool {
+        let cb_before = last_cb_id();
+        let ok = self.clone_from_inner(src);
+        // `a.clone_from(&b)` must leave `a` with a clone of b's callback (Clone contract: same as
+        // `a = b.clone()`): a recording callback is cloned by creating a new recorder
+        if ok && src.cb.is_some() && src.cb != Some(ZST_CB) && last_cb_id() == cb_before {
+            self.cb = None;
+        }
+        ok
+    }
+
+    fn clone_from_inner(&mut self, src: &Sut<K>) -> bool {
         match (&mut self.c, &src.c) {
             (SutC::Lru(a), SutC::Lru(b)) => a.clone_from(b),
             (SutC::LruCb(a), SutC::LruCb(b)) => a.clone_from(b),
